@@ -19,7 +19,7 @@ reg("C10",
     quick=dict(defs=dict(CONFIGS=_QUICK), symx=dict(shards=16, **{"max-wall": 900})),
     thorough=dict(defs=dict(CONFIGS=_THOROUGH), symx=dict(shards=16, **{"max-wall": 3000, "shard-depth": 8})),
     reach=["end", "key_removed", "key_removed_and_readded_same_cycle", "key_with_state_removed_and_added_later", "key_added_after_a_removal", "three_valid",
-           "five_valid", "self_scheduled_wakeup", "removed_with_pending_wakeup", "broadcast_tick_alone", "live_key_without_valid_output", "phantom_key"],
+           "five_valid", "self_scheduled_wakeup", "removed_with_pending_wakeup", "broadcast_tick_alone", "live_key_without_valid_output", "phantom_key", "late_valid_key_after_map_primed"],
     bounds="TSD<int,TS<int>> source; enumerated configurations {NKEYS, BULK, NCYC, EXTRA_OPS, FMASK = bit set of the mapped functions explored}: quick " + _QUICK + "; thorough " + _THOROUGH + ": in each of "
            "NCYC cycles every one of NKEYS keys independently does {nothing, set (add/update), remove, erase+set in one cycle}, with EXTRA_OPS also {create "
            "the key without a value, add+remove in one cycle}; a group of BULK further keys is added/updated/removed as a unit (many keys per cycle, "
